@@ -77,6 +77,7 @@ type Result struct {
 	Samples     []any
 	Configs     []string
 	Broken      []string
+	Notes       []string
 	Rules       []string
 }
 
@@ -90,6 +91,14 @@ func (r *Result) Add(f Finding) { r.Findings = append(r.Findings, f) }
 
 func (r *Result) Brokenf(format string, a ...any) {
 	r.Broken = append(r.Broken, fmt.Sprintf(format, a...))
+}
+
+// Stale records an exemption-table entry that no longer suppresses anything
+// (the code it was written for was repaired or refactored). An unused entry
+// cannot hide a violation, so it is reported as a note, not as a failure.
+func (r *Result) Stale(format string, a ...any) {
+	r.Notes = append(r.Notes, fmt.Sprintf(format, a...))
+	r.Counts["stale_exemptions"]++
 }
 
 func (r *Result) Sample(v any) {
@@ -130,6 +139,7 @@ func (r *Result) Merge(o *Result) {
 		}
 	}
 	r.Broken = append(r.Broken, o.Broken...)
+	r.Notes = append(r.Notes, o.Notes...)
 	r.Rules = append(r.Rules, o.Rules...)
 }
 
@@ -438,6 +448,9 @@ func Finish(prop, tier string, seed int, start time.Time, res *Result, explanati
 	for _, b := range res.Broken {
 		fmt.Printf("BROKEN: property=%s %s\n", prop, b)
 	}
+	for _, n := range res.Notes {
+		fmt.Printf("NOTE: property=%s %s\n", prop, n)
+	}
 
 	distinct := 0
 	names := make([]string, 0, len(res.Counts))
@@ -474,6 +487,7 @@ func Finish(prop, tier string, seed int, start time.Time, res *Result, explanati
 			"configurations":       res.Configs,
 			"samples":              samples,
 			"known_findings":       len(printedKF),
+			"notes":                append([]string{}, res.Notes...),
 			"exhaustive":           true,
 			"checker_cmd":          strings.Join(os.Args, " "),
 		},
